@@ -61,7 +61,13 @@ def build_harness(race=False):
             # the library may no longer compile with its `verif` hooks (they touch unexported names); everything the
             # verdicts need is observable through the exported API, so fall back to a build without the hooks
             if not tags:
-                raise
+                # one more attempt before giving up: a build that fails for a reason outside the sources (a busy machine,
+                # a cache being written by another process) must not be reported as "the library does not build"
+                import time
+                time.sleep(2)
+                sh(cmd, cwd=src, env=env, timeout=600)
+                HOOKS = False
+                return out
             HOOKS_ERROR = str(e)[-600:]
     return out
 
